@@ -40,7 +40,7 @@ fn run(line: &str) -> String {
         // the analyzer still admits a fresh connection after the trace exactly as a fresh analyzer does
         let mut r = Rng::new(77);
         let k = match kind { Kind::Tcp => 2, Kind::Tls => 1, Kind::Http => 0, Kind::Unified => 0 };
-        let probe = connection(&mut r, &ConnSpec { kind: k, v6: false, id: 5999 }, 9_000_000);
+        let probe = connection(&mut r, &ConnSpec::new(k, false, 5999), 9_000_000);
         let mut fresh = Seq::new(kind, db, 1000);
         for (f, t) in &probe {
             let x = a.packet(f, *t); let y = fresh.packet(f, *t);
@@ -66,8 +66,23 @@ fn gen(r: &mut Rng, tier: &Tier, out: &mut Vec<String>) {
             // connections may share the client HOST (same address, different port) to stress keying
             let id = if r.chance(1, 3) && j > 0 { (case as u64 * 7 + j as u64) % 200 + 200 * (j as u64 % 3) } else { (case as u64 * 7 + j as u64 * 31) % 5000 };
             let v6 = r.chance(1, 5); let t0 = 1_000_000 + r.below(1000);
-            conns.push(connection(r, &ConnSpec { kind: ck, v6, id: id + j as u64 * 6000 }, t0));
+            let mut sp = ConnSpec::new(ck, v6, id + j as u64 * 6000); sp.same_host = r.chance(1, 6);
+            conns.push(connection(r, &sp, t0));
         }
+        // sibling connections: same client address AND port towards different servers, or different clients
+        // using the same ephemeral port towards one server (distinct 4-tuples sharing three of four parts)
+        if case % 3 == 1 {
+            let v6 = r.chance(1, 2); let base = 100 + r.below(50); let port = 30000 + r.below(1000) as u16;
+            let ck = match kind { Kind::Tcp => 2u64, Kind::Tls => 1, Kind::Http => 0, Kind::Unified => *r.pick(&[0u64, 1, 2]) };
+            let t0 = 1_000_000 + r.below(1000);
+            for j in 0..2u64 {
+                let mut sp = ConnSpec::new(ck, v6, base);
+                if case % 2 == 0 { sp.cid = Some(base); sp.cport = Some(port); sp.sid = Some(10 + j); }
+                else { sp.cid = Some(base + j); sp.cport = Some(port); sp.sid = Some(7); }
+                conns.push(connection(r, &sp, t0 + 60 * j));
+            }
+        }
+        let n = conns.len();
         // isolated results with the real analyzer
         let iso: Vec<Vec<String>> = conns.iter().map(|c| { let mut a = Seq::new(kind, &db, 1000); c.iter().map(|(f, t)| tok(&a.packet(f, *t))).collect() }).collect();
         let tr = interleave(r, &conns, case % 5 == 0);
